@@ -93,6 +93,8 @@ impl Block for Hilbert {
             *val = Complex::new(iv[i + self.ntaps / 2], self.filter.filter_float(t));
         });
 
+        // Only tags of the samples actually consumed.
+        let tags: Vec<_> = tags.into_iter().filter(|t| t.pos() < n).collect();
         oo.produce(n, &tags);
 
         self.history[..self.ntaps].clone_from_slice(&iv[n..len]);
